@@ -164,7 +164,9 @@ def suffix(s, rnd, kind, subs):
 def one(sid, rnd, pre, suf):
     ext1 = ["e1"] if pre in ("extcrash", "extiniterror", "one-ext-then-more", "ext-shutdown-error", "stubborn-ext") else []
     # the suffix runs with the same directory (it cannot change), subscriptions may differ
-    s = Scn(sid, ext=ext1, timeout_ms=500, onTerm={"e1": "exit"}, opWaitMs=6000)
+    # (recordRelease: the runtime of each generation identifies itself; the identity carried by the result of every
+    #  invocation is recorded - a generation that never started its runtime reports none, like a fresh instance)
+    s = Scn(sid, ext=ext1, timeout_ms=500, onTerm={"e1": "exit"}, opWaitMs=6000, recordRelease=True)
     s.meta(family="reset-suffix", prefix=pre, suffix=suf)
     s.init()
     prefix(s, rnd, pre)
